@@ -232,12 +232,28 @@ def apply_action(mod, act, env, lib):
     if a == "MaskSelect":
         x = X()
         return x[x > act["thresh"]]
+    if a == "Unknown":
+        return getattr(mod, act["op"])(X())
     if a == "Persist":
         if lib == "np":
             return X()
         import dask
 
         e = act["entry"]
+        if e in ("dask.persist", "dask.optimize"):
+            # known finding F01: where dask's generic path does not build x's own graph these two entry points are already
+            # broken; follow-on operations are explored only where they work (the entry points themselves are judged by C05 (a))
+            from dask.base import collections_to_expr
+
+            from dask_array._new_collection import new_collection
+
+            x0 = X()
+            try:
+                same = set(collections_to_expr([new_collection(x0.expr)]).__dask_graph__()) == set(new_collection(x0.expr).__dask_graph__())
+            except Exception:
+                same = False
+            if not same:
+                raise NotImplementedError("F01: dask's generic optimizer path does not build this collection's own graph")
         if e == "x.persist":
             return X().persist(scheduler="sync")
         if e == "dask.persist":
@@ -421,7 +437,8 @@ def spec_value(arr, max_den=5000):
         if any(abs(v) >= 2 ** 31 for v in data):
             data = [max(min(v, 2 ** 31 - 1), -(2 ** 31 - 1)) for v in data]
     else:
-        data = [repr(v) for v in flat]
+        # not a numeric array (object / string results of a mis-executed graph): never equal to a denotation
+        return {"shape": [int(x) for x in a.shape], "kind": "o", "data": [], "repr": repr(flat[:6])[:120]}
     return {"shape": [int(x) for x in a.shape], "kind": k, "data": data}
 
 
@@ -582,6 +599,11 @@ def failing_action(beh, detail):
 def _worker(args):
     behs, observers_path, max_variants, seed, opts = args
     import importlib
+
+    import dask
+
+    # library calls that compute internally (compute_chunk_sizes, persist) must not start thread pools in forked workers
+    dask.config.set(scheduler="sync")
 
     obs = []
     for pth in observers_path:
